@@ -149,6 +149,9 @@ def resolve_directed(files, opts, knobs):
     return files
 
 
+RESERVED_BASES = ["router", "system", "permit", "interface", "neighbor", "trunk", "snmp"]
+
+
 def keep_nets(o):
     nets = list(o.get("pa") or [])
     if o.get("private"):
@@ -167,12 +170,22 @@ def make_ctx(r, o, nwords=None):
         # kept tokens written with zero-padded octets must come out as written
         k4 = k4 + [".".join(o_.zfill(3) for o_ in t.split(".")) for t in r.sample(k4, min(2, len(k4)))]
     ctx = {"a4": G.addr_pool4(r, nets), "a6": G.addr_pool6(r), "k4": k4, "keep_is_net": len(G.MASKS4),
-           "as": o.get("as") or G.AS_POOL[:2], "words": o.get("words") or []}
+           "as": o.get("as") or G.AS_POOL[:2], "words": o.get("words") or [], "rw": o.get("_rw")}
     return ctx
 
 
 def add_words(r, o, n=None, forbidden=""):
     o["words"] = G.gen_words(r, n or r.randint(1, 4), G.VOCAB_TEXT + "\n" + forbidden)
+    if r.random() < 0.15:
+        # a listed word that is a substring of a built-in reserved word: tokens exactly equal to that reserved word are kept
+        base = r.choice(RESERVED_BASES)
+        subs = [base[i:j] for i in range(len(base)) for j in range(i + 3, len(base) + 1)
+                if re.fullmatch(r"[g-z][a-z-]*[g-z]", base[i:j]) and base[i:j] not in "netconanremoved" and base[i:j] != base]
+        if subs:
+            w = r.choice(subs)
+            if w not in [x.lower() for x in o["words"]]:
+                o["words"].append(w)
+                o["_rw"] = [base, w]
     if o["words"] and r.random() < 0.1:
         w = r.choice(o["words"])
         o["words"].append(w.swapcase() if w.swapcase().lower() == w.lower() else w)      # the same word listed twice
@@ -344,6 +357,11 @@ def gen_lines(r, ctx, secrets, o, n, eol_variety=True):
             ln = G.expand(r, r.choice(G.LINES_A4), ctx)
         elif c < 0.75:
             ln = G.expand(r, r.choice(G.LINES_A6), ctx)
+        elif c < 0.78 and ctx.get("rw"):
+            base, sub = ctx["rw"]
+            wi = [x.lower() for x in ctx["words"]].index(sub) if sub in [x.lower() for x in ctx["words"]] else 0
+            ln = {"segs": [["lit", r.choice([" match protocol ", "set ", " "])], ["rw", base], ["lit", r.choice(["   ! ", " vrf ", " and "])],
+                           ["w", sub, {"w": wi}], ["lit", r.choice([" farm", "", " x"])]], "eol": "\n"}
         elif c < 0.85 and ctx["words"]:
             ln = G.expand(r, r.choice(G.LINES_W), ctx)
         elif c < 0.93:
